@@ -7,6 +7,7 @@ import rules_orphan
 import rules_own
 import rules_ct
 import rules_sibling
+import rules_codec
 
 
 class Context:
@@ -100,6 +101,17 @@ PROPS = {
         "level_text": "exact static rule check over the whole-program call graph and the CFGs of the reordering entry points; decides the invalidation/rewrite/relabel disciplines that reordering correctness needs, not function preservation itself",
         "design_ref": "DESIGN.md §2.5, §3 C13",
         "level_note": "trusts clang 14 call resolution (virtual calls expanded to all overriders) and the caller table in lib/rules_layer.py",
+    },
+    "C14": {
+        "title": "Writing functions to an exchange file and reading them back is lossless",
+        "rules": [on_program(r) for r in rules_codec.RULES] + [rules_own.rule_own_reader],
+        "explanation": STRUCTURAL + ". C14: format agreement of every writer/reader pair (type letters, boolean letters, `n` marker, terminals decoded from / encoded to handles, section order and guards of a node record, "
+                       "file keywords, forest code characters, variable order of the domain record) and the reader's reference-count discipline.",
+        "assumptions": ["numeric precision of printed reals and bottom-up numbering of every graph are not decided", "ownership parked in the reader's local vector is untracked by the own engine (container token not modelled)"],
+        "technique": "writer/reader signature extraction from clang CFG facts (switch-case tables, literals, section and traversal order) and comparison of the two sides; ownership typing of the reader",
+        "level_text": "exact static rule check over the four writer/reader pairs of the exchange format and the domain record; decides format agreement and the reader's link/unlink discipline, not the round trip as such",
+        "design_ref": "DESIGN.md §2.6, §2.1, §3 C14",
+        "level_note": "trusts clang 14 CFGs and expression printing; literals are taken from the resolved AST of the named functions",
     },
     "C15": {
         "title": "Index sets number the members of a set 0..n-1 in lexicographic order",
